@@ -32,7 +32,7 @@ func init() {
 
 // marker builds an attack string unique to its source.
 func marker(n int, newline bool) string {
-	s := fmt.Sprintf(`s%d<mk%da>"' onmk%db=1 x='y' &mk%dc; </td><mk%dd x`, n, n, n, n, n)
+	s := fmt.Sprintf(`s%d<mk%da>"' onmk%db=1 x='y' &mk%dc; </title></textarea></td><mk%dd x`, n, n, n, n, n)
 	if newline {
 		s = fmt.Sprintf("l%d\r\nhttp://mk%de.example/\n#mk%df", n, n, n) + s
 	}
@@ -128,8 +128,13 @@ func webuiMain(rc *RunCtx) {
 	if multi {
 		opts.MultiFile = 2
 		nl := st.Bool(1, 2)
+		deep := st.Bool(1, 2)
 		opts.FileNames = func(i int) []string {
 			if hostilePaths {
+				if deep {
+					// a hostile directory shared by several sub-directories
+					return []string{marker(8, false), fmt.Sprintf("sub%d", i%3), marker(6, nl) + fmt.Sprint(i)}
+				}
 				return []string{marker(8, false) + fmt.Sprint(i%2), marker(6, nl) + fmt.Sprint(i)}
 			}
 			return []string{fmt.Sprintf("dir%d", i%2), fmt.Sprintf("file %d.dat", i)}
@@ -229,7 +234,7 @@ func webuiMain(rc *RunCtx) {
 			fileTargets = append(fileTargets, "/"+H+"/"+strings.Join(parts, "/"))
 		}
 	}
-	targets := []string{"/", "/?q=peers&hash=" + H, "/?q=add", "/?q=add&url=" + url.QueryEscape("http://files.example/y.torrent"), "/?q=delete&hash=" + H, "/?q=set&idle=12345&upload=54321", "/?q=set-torrent&hash=" + H + "&dht-mode=none", "/?q=bogus", "/" + H, "/" + H + "/", "/" + H + ".torrent", "/" + H + ".m3u", "/" + H + "/?playlist", fileTargets[st.Choice(len(fileTargets))], "/" + H + "/nosuchfile", "/0123", "/favicon.ico"}
+	targets := []string{"/", "/?q=peers&hash=" + H, "/?q=add", "/?q=add&url=" + url.QueryEscape("http://files.example/y.torrent"), "/?q=delete&hash=" + H, "/?q=set&idle=12345&upload=54321", "/?q=set-torrent&hash=" + H + "&dht-mode=none", "/?q=bogus", "/" + H, "/" + H + "/", "/" + H + ".torrent", "/" + H + ".m3u", "/" + H + "/?playlist", fileTargets[st.Choice(len(fileTargets))], "/" + H + "/nosuchfile", "/0123", "/favicon.ico", "/debug/pprof/", "/debug/pprof/cmdline", "/debug/vars", "/metrics"}
 	if spec.Files != nil {
 		d := url.PathEscape(spec.Files[0].Path[0])
 		targets = append(targets, "/"+H+"/"+d+"/", "/"+H+"/"+d+"/?playlist")
